@@ -22,10 +22,10 @@ theorem DStop.client_stop (s0 : Nat) : ∀ a ∈ clStop s0, DStop.Kept a := by
   all_goals (try (simp only [isOp, atPc, notifySink, setReaderChan, readerChan, readerIdx, flushRead, mapRead, mapMoved, chanOp, lockOk, monMapped, outLen_eq, getS, getD0_eq, getD_idx0, getD1_eq, getD_idx1, getD_stopAllFilters, markFlt, Bool.and_eq_true, Bool.or_eq_true, decide_eq_true_eq, Bool.not_eq_true', ne_eq] at hg ⊢))
   all_goals (try (simp at hg; done))
   all_goals (repeat' split)
-  all_goals (intro hf he hm hF)
-  all_goals (first | (cases hm; done) | (obtain ⟨k1, k2, k3, k4, k5, k6, k7, k8, k9, k10, k11, k12, k13⟩ := hU _ hf he hm))
-  all_goals (first | (have hEE := hE _ hf he hm hF; have w2 := hEE.w2; have w4 := hEE.w4; have w5 := hEE.w5; have w6 := hEE.w6; have e10b := hEE.drained_pc))
-  all_goals (first | (obtain ⟨c1, c2, c3, c4, c7, c7a, c8, y, yq, yqs, yqx, yqe, yend⟩ := h _ hf he hm hF))
+  all_goals (intro he hm hF)
+  all_goals (first | (cases hm; done) | (obtain ⟨k1, k2, k3, k4, k5, k6, k7, k8, k9, k10, k11, k12, k13⟩ := hU _ he hm))
+  all_goals (first | (have hEE := hE _ he hm hF; have w2 := hEE.w2; have w4 := hEE.w4; have w5 := hEE.w5; have w6 := hEE.w6; have e10b := hEE.drained_pc))
+  all_goals (first | (obtain ⟨c1, c2, c3, c4, c7, c7a, c8, y, yq, yqs, yqx, yqe, yend⟩ := h _ he hm hF))
   all_goals (
     have hn1 := nrd_pos k3
     have hrm0 := cv_rmap0 k1 hn1
